@@ -78,6 +78,7 @@ class CFRank:
             return self
         self.log("Initial divisor is winnable. Proceeding to step 2.")
 
+        rr_correction = 0
         if optimized:
             self.log(
                 "Optimized mode is enabled. Checking if we can apply theoretical shortcuts before proceeding."
@@ -100,6 +101,12 @@ class CFRank:
                     "Optimized mode: (K-D) has lower degree than D. Running next step on (K-D)."
                 )
                 self._divisor = K - D
+                # Riemann-Roch: r(D) = r(K-D) + deg(D) + 1 - g
+                rr_correction = D.get_total_degree() + 1 - graph.get_genus()
+                k_minus_d_winnable, _, _, _ = EWD(graph, K - D, optimized=False)
+                if not k_minus_d_winnable:
+                    self._rank_value = -1 + rr_correction
+                    return self
             else:
                 self.log(
                     "Optimized mode: (K-D) has degree >= that of D. Running next step on D itself."
@@ -196,7 +203,7 @@ class CFRank:
                 self.log(
                     f"  For k={k}, an unwinnable configuration was found. Rank: {k-1}"
                 )
-                self._rank_value = k - 1
+                self._rank_value = k - 1 + rr_correction
                 return self
             else:
                 self.log(
